@@ -15,7 +15,8 @@ Inductive tev :=
 | TStuck.                                        (* an accepted, queued operation was not taken by the worker (watchdog) *)
 
 (* batching? queue capacity, max batch size; trace; State().List() at the end; calls seen by the PinTracker RPC service *)
-Record h1 := mk_h1 { h_batching : bool; h_qcap : N; h_size : N; h_trace : list tev;
+(* h_nofire: MaxBatchAge is an hour or more, the timer cannot expire while the case runs *)
+Record h1 := mk_h1 { h_batching : bool; h_nofire : bool; h_qcap : N; h_size : N; h_trace : list tev;
                      h_final : list (key * val); h_calls : list tcall }.
 
 (* ------------------------------------------------------------------ replay on the model *)
@@ -24,7 +25,7 @@ Record rst := mk_rst { r_b : bst item; r_l : lrep; r_calls : list tcall; r_bad :
 Definition hd_id (q : list item) : option N := match q with (i, _) :: _ => Some i | [] => None end.
 Definition hd_op (q : list item) : option wop := match q with (_, o) :: _ => Some o | [] => None end.
 
-Definition replay_step (c : bcfg) (s : rst) (e : tev) : rst :=
+Definition replay_step (c : bcfg) (nofire : bool) (s : rst) (e : tev) : rst :=
   let b := r_b s in
   match e with
   | TEnq id o ok =>
@@ -45,7 +46,7 @@ Definition replay_step (c : bcfg) (s : rst) (e : tev) : rst :=
       | PCommit => mk_rst (bstep c b (SizeCommit (pres_ok p))) l' calls (r_bad s || negb okp)
       | PIdle =>
           if t_chan (tm b) then mk_rst (bstep c b (OnTimer (pres_ok p))) l' calls (r_bad s || negb okp)
-          else if t_active (tm b) then mk_rst (bstep c (bstep c b Fire) (OnTimer (pres_ok p))) l' calls (r_bad s || negb okp)
+          else if t_active (tm b) && negb nofire then mk_rst (bstep c (bstep c b Fire) (OnTimer (pres_ok p))) l' calls (r_bad s || negb okp)
           else mk_rst b (r_l s) (r_calls s) true      (* a commit from the timer branch of a timer that cannot fire *)
       end
   | TDirect id o p ok =>
@@ -54,11 +55,11 @@ Definition replay_step (c : bcfg) (s : rst) (e : tev) : rst :=
              (r_bad s || negb (Bool.eqb ok okm) || negb (pres_possible (r_l s) (delta_add_op (l_st (r_l s)) ([], []) o) p))
   | TNoAge =>
       mk_rst b (r_l s) (r_calls s)
-             (r_bad s || (negb (blocked b) && (t_active (tm b) || t_chan (tm b) || match pc b with PCommit => true | PIdle => false end)))
+             (r_bad s || (negb (blocked b) && negb nofire && (t_active (tm b) || t_chan (tm b) || match pc b with PCommit => true | PIdle => false end)))
   | TStuck => mk_rst b (r_l s) (r_calls s) (r_bad s || negb (blocked b))
   end.
 
-Definition replay (c : bcfg) (t : list tev) : rst := fold_left (replay_step c) t (mk_rst binit linit [] false).
+Definition replay (c : bcfg) (nofire : bool) (t : list tev) : rst := fold_left (replay_step c nofire) t (mk_rst binit linit [] false).
 
 Fixpoint insert_kv (x : key * val) (l : list (key * val)) : list (key * val) :=
   match l with [] => [x] | y :: r => if fst x <=? fst y then x :: l else y :: insert_kv x r end.
@@ -73,7 +74,7 @@ Definition has_stuck (t : list tev) : bool := existsb (fun e => match e with TSt
 
 Definition model_eqb (fixed : bool) (h : h1) : bool :=
   let c := mk_bcfg (h_qcap h) (h_size h) fixed in
-  let s := replay c (h_trace h) in
+  let s := replay c (h_nofire h) (h_trace h) in
   negb (r_bad s)
   && match pc (r_b s) with PIdle => true | PCommit => false end                      (* no commit left unobserved *)
   && (blocked (r_b s) || has_stuck (h_trace h) || match queue (r_b s) with [] => true | _ => false end)
